@@ -59,6 +59,9 @@ FIRST_MISSED.update({
  "C16-d2": "BuiltIn sources only met limits ≥ their token count → limits below it: no document may come back",
  "C19-d1": "no name of a document spelled a member name of the encoding → every member name (Alias, TypeCondition, Name, …) in every name and string position; 1 in 8 random names",
 })
+FIRST_MISSED.update({
+ "C14-e1": "every variables map was built from fresh objects → Go-only probes with ONE map object at two positions of different input types (variables, list items, fields of one object, below a recursive type): refused when the maps are distinct ⇒ refused when shared",
+})
 NOTE = {"C02-2": "obsolete: the guarded code (in-progress set) was replaced by the fields-and-fragment memo before it could be evaluated",
         "C09-1": "rebased by hand onto the repaired walker", "C10-3": "rebased by hand onto the polynomial rule", "C11-3": "import hunk rebased by hand"}
 print("| change | file | what it breaks | caught by | first evaluation |")
